@@ -11,6 +11,7 @@ import (
 	"fmt"
 	"os"
 	"path/filepath"
+	"regexp"
 	"strings"
 	"testing/fstest"
 
@@ -73,6 +74,8 @@ func caseVariants(w string) []string {
 	}
 	return out
 }
+
+var cmtInParens = regexp.MustCompile(`;(c+)\n`)
 
 func families(tmp string) []hcase {
 	var cs []hcase
@@ -210,6 +213,49 @@ func families(tmp string) []hcase {
 	}
 	for _, t := range []string{"${0,3000000}", "${0,99999999999999999999,d}", "${0,-1,d}", "${9223372036854775807,0,d}", "${0,255,d}${0,255,d}${0,255,d}${0,255,d}"} {
 		cs = append(cs, hcase{fam: "generate-width", text: "$GENERATE 1-4 host-$ 5 TXT " + t + "\n", allowed: false, maxRecs: 65536})
+	}
+	// 6c. lengths around the lexer's internal buffer size (512, and its multiples) in every lexer state, with something
+	// FOLLOWING in the same entry: a comment inside parentheses of n octets, then a token, then a second comment; a token
+	// / quoted string of n octets then a comment; two long comments; the same after a first entry has grown the buffers
+	txtLine := func(ss ...string) zg.Line {
+		l := zg.Line{K: "rr", Owner: rel("a"), TTL: 5, Class: 0, Order: "tc", Type: 16, RD: zg.RD{IP: hx.B{}, Nm: omit(), Txt: []hx.B{}}}
+		for _, s := range ss {
+			l.RD.Txt = append(l.RD.Txt, hx.FromString(s))
+		}
+		return l
+	}
+	for _, n := range []int{200, 255, 256, 510, 511, 512, 513, 514, 767, 1023, 1024, 1025, 1536, 2001} {
+		c1 := strings.Repeat("c", n)
+		tok := strings.Repeat("t", min(n, 255))
+		after := rrA(rel("b"), 5, 2)
+		tail := "\nb 5 A 10.0.0.2\n"
+		for _, v := range []struct {
+			text string
+			ss   []string
+		}{
+			{"a 5 TXT ( ;" + c1 + "\n x ; second comment\n )", []string{"x"}},
+			{"a 5 TXT ( x ;" + c1 + "\n y ;" + c1 + "\n z ; third\n )", []string{"x", "y", "z"}},
+			{"a 5 TXT ( " + tok + " ;" + c1 + "\n \"" + tok + "\" ; c\n )", []string{tok, tok}},
+			{"a 5 TXT ( \"" + tok + "\" ;" + c1 + "\n ) ;" + c1, []string{tok}},
+			{"a 5 TXT x ;" + c1, []string{"x"}},
+			{"a 5 TXT ( ;" + c1[:n-1] + "\n ;" + c1 + "\n ;\n x ;" + c1 + "\n ) ; end", []string{"x"}},
+		} {
+			fam := "buffer-boundary"
+			for _, m := range cmtInParens.FindAllStringSubmatch(v.text, -1) {
+				if (len(m[1])+1)%512 == 511 && strings.Contains(v.text[strings.Index(v.text, m[0])+len(m[0]):], ";") {
+					// (the pinned lexer refuses a comment of 511 + 512k octets inside parentheses when another comment follows:
+					// "comment length insufficient for parsing" -- a finding on record; its own class)
+					fam = "buffer-boundary-comment-511"
+				}
+			}
+			cs = append(cs, hcase{fam: fam, text: v.text + tail, allowed: false,
+				lines: []zg.Line{txtLine(v.ss...), after}, spell: true, onePer: true})
+		}
+		// unquoted / quoted item of exactly n octets, then a comment (TXT strings longer than 255 are not this property's business)
+		long := strings.Repeat("t", n)
+		cs = append(cs, hcase{fam: "buffer-boundary", text: "a 5 TXT ( " + long + " ; c\n ) ; d" + tail, allowed: false})
+		cs = append(cs, hcase{fam: "buffer-boundary", text: "a 5 TXT ( \"" + long + "\" ;" + c1 + "\n x ; d\n )" + tail, allowed: false})
+		cs = append(cs, hcase{fam: "buffer-boundary", text: "$TTL 5 ;" + c1 + "\n$ORIGIN x ;" + c1 + "\na A ( ;" + c1 + "\n 10.0.0.1 ; e\n )" + tail, allowed: false})
 	}
 	// 7. tokens and comments of 511 / 512 / 513 / 2047 / 2048 / 10^6 octets
 	for _, n := range []int{511, 512, 513, 2047, 2048, 1000000} {
